@@ -58,6 +58,18 @@ def explore(core, rng, tier, seed, search=False):
             xs = [rng.choice(grid) if rng.random() < 0.5 else rng.randrange(lo, hi + 1) for _ in range(rng.randrange(1, 6))]
             L = "[" + ",".join(map(str, xs)) + "]"
             sc += ["min %s %s" % (ty, L), "max %s %s" % (ty, L), "sum %s %s" % (ty, L), "product %s %s" % (ty, L)]
+        # long argument lists, odd and even counts, the extremum at the first / last / a middle position (an unrolled or multi-lane scan only
+        # engages beyond some dozens of arguments and typically mishandles the tail)
+        for n in (8, 9, 16, 17, 31, 32, 33, 34, 63, 64, 65, 66, 127, 129, 257):
+            for pos in (0, n - 1, n // 2, rng.randrange(n)):
+                mid = (lo + hi) // 2
+                xs = [rng.randrange(mid - 50, mid + 50) if hi - lo > 300 else rng.randrange(lo + 2, hi - 1) for _ in range(n)]
+                for ext, op in ((lo if rng.random() < 0.5 else min(xs) - 1, "min"), (hi if rng.random() < 0.5 else max(xs) + 1, "max")):
+                    ys = list(xs); ys[pos] = max(lo, min(hi, ext))
+                    sc.append("%s %s [%s]" % (op, ty, ",".join(map(str, ys))))
+            xs = [rng.randrange(lo, hi + 1) for _ in range(n)]
+            L = "[" + ",".join(map(str, xs)) + "]"
+            sc += ["sum %s %s" % (ty, L), "product %s %s" % (ty, L)]
         scripts.append(sc)
     # float64 Sum/Product: left-to-right, so operands whose rounding or overflow depends on the grouping
     import struct
